@@ -17,18 +17,21 @@ def contains(node, pred):
     return any(pred(n) for n in ast.walk(node))
 
 
+PARTIALS = set()           # local names bound to functools.partial(<write helper>, pipe)
 WRITE_HELPERS = set()      # module-level functions H(pipe, buf) verified to write every byte of buf (see write_all_helpers)
 
 
 def is_write(n):
     if isinstance(n, ast.Call) and isinstance(n.func, ast.Attribute) and n.func.attr == 'write' and unparse(n.func.value) == 'pipe':
         return True
+    if isinstance(n, ast.Call) and isinstance(n.func, ast.Name) and n.func.id in PARTIALS and len(n.args) == 1 and not n.keywords:
+        return True
     return isinstance(n, ast.Call) and isinstance(n.func, ast.Name) and n.func.id in WRITE_HELPERS and len(n.args) == 2 and unparse(n.args[0]) == 'pipe' and not n.keywords
 
 
 def wdata(n):
     """The bytes a write call emits: the argument of pipe.write / the second argument of a write-all helper; `x.tobytes()` of a scalar header is x."""
-    d = n.args[0] if isinstance(n.func, ast.Attribute) else n.args[1]
+    d = n.args[0] if isinstance(n.func, ast.Attribute) or (isinstance(n.func, ast.Name) and n.func.id in PARTIALS) else n.args[1]
     return d
 
 
@@ -39,34 +42,66 @@ def _strip_tobytes(d):
 
 
 def write_all_helpers(tree):
-    """Module-level functions  def H(pipe, buf): [buf = memoryview(buf)]; while len(buf): n = pipe.write(buf); ...; buf = buf[n:]
-    -- a loop that keeps writing until the stream has taken every byte (a raw stream takes at most one system call's worth per write)."""
+    """Module-level functions H(pipe, buf) that return only when the stream has taken every byte of buf:
+
+        [buf = memoryview(buf)]  [if not len(buf): return]
+        while <len(buf) | True>:  n = pipe.write(buf);  [ifs that only raise];  buf = buf[n:];  [if not len(buf): break]
+
+    One write of the current rest per iteration, the rest advanced by exactly the returned count, and every way out of the loop
+    (its test, a break, a return) is taken only when nothing is left.  A raw stream takes at most one system call's worth per write."""
     out = set()
+
+    def empty_test(t, B):
+        return unparse(t).replace(' ', '') in (f'notlen({B})', f'len({B})==0', f'not{B}', f'{B}.nbytes==0', f'len({B})<1')
+
+    def nonempty_test(t, B):
+        return unparse(t).replace(' ', '') in (f'len({B})', B, f'len({B})>0', f'{B}.nbytes', f'len({B})!=0')
     for f in tree.body:
         if not (isinstance(f, ast.FunctionDef) and len(f.args.args) == 2 and not f.decorator_list):
             continue
         P, B = [a.arg for a in f.args.args]
-        loops = [n for n in f.body if isinstance(n, ast.While)]
-        if len(loops) != 1 or loops[0].orelse:
+        body = [x for x in f.body if not (isinstance(x, ast.Expr) and isinstance(x.value, ast.Constant))]
+        loops = [n for n in body if isinstance(n, ast.While)]
+        if len(loops) != 1 or loops[0].orelse or body[-1] is not loops[0]:
             continue
         W = loops[0]
-        if unparse(W.test) not in (f'len({B})', B, f'len({B}) > 0', f'{B}.nbytes'):
+        forever = isinstance(W.test, ast.Constant) and W.test.value is True
+        if not (forever or nonempty_test(W.test, B)):
             continue
+        ok = True
+        for x in body[:body.index(W)]:
+            if isinstance(x, ast.Assign) and unparse(x.targets[0]) == B and unparse(x.value) in (f'memoryview({B})', f"memoryview({B}).cast('B')"):
+                continue
+            if isinstance(x, ast.If) and not x.orelse and empty_test(x.test, B) and len(x.body) == 1 and isinstance(x.body[0], ast.Return) and x.body[0].value is None:
+                continue
+            ok = False
         wr = [x for x in W.body if isinstance(x, ast.Assign) and isinstance(x.value, ast.Call) and unparse(x.value) == f'{P}.write({B})' and isinstance(x.targets[0], ast.Name)]
-        if len(wr) != 1:
+        if not ok or len(wr) != 1:
             continue
         nv = wr[0].targets[0].id
         adv = [x for x in W.body if isinstance(x, ast.Assign) and unparse(x.targets[0]) == B and unparse(x.value) == f'{B}[{nv}:]']
         if len(adv) != 1 or W.body.index(adv[0]) < W.body.index(wr[0]):
             continue
-        # between the write and the advance only checks that leave by raising; nothing else may change B or the count
-        mid = W.body[W.body.index(wr[0]) + 1:W.body.index(adv[0])]
-        if any(not (isinstance(m, ast.If) and not m.orelse and all(isinstance(y, ast.Raise) for y in m.body)) for m in mid):
+        i_w, i_a = W.body.index(wr[0]), W.body.index(adv[0])
+        exits_ok, has_break = True, False
+        for k_, m in enumerate(W.body):
+            if m is wr[0] or m is adv[0]:
+                continue
+            raise_only = isinstance(m, ast.If) and not m.orelse and all(isinstance(y, ast.Raise) for y in m.body)
+            leave_empty = isinstance(m, ast.If) and not m.orelse and empty_test(m.test, B) and len(m.body) == 1 and \
+                (isinstance(m.body[0], ast.Break) or (isinstance(m.body[0], ast.Return) and m.body[0].value is None))
+            if raise_only and (i_w < k_ < i_a or k_ > i_a or k_ < i_w):
+                continue
+            if leave_empty and (k_ > i_a or k_ < i_w):
+                has_break = True
+                continue
+            exits_ok = False
+        if not exits_ok or (forever and not has_break):
             continue
-        pre = [x for x in f.body[:f.body.index(W)] if not (isinstance(x, ast.Expr) and isinstance(x.value, ast.Constant))]
-        if any(not (isinstance(x, ast.Assign) and unparse(x.targets[0]) == B and unparse(x.value) in (f'memoryview({B})', f"memoryview({B}).cast('B')")) for x in pre):
+        # no other write, store to the buffer or the count anywhere else
+        if sum(1 for x in ast.walk(f) if isinstance(x, ast.Call) and isinstance(x.func, ast.Attribute) and x.func.attr == 'write') != 1:
             continue
-        if any(isinstance(x, (ast.Return, ast.Break, ast.Continue)) for x in ast.walk(f)):
+        if sum(1 for x in ast.walk(W) if isinstance(x, ast.Name) and isinstance(x.ctx, ast.Store) and x.id in (B, nv)) != 2:
             continue
         out.add(f.name)
     return out
@@ -205,6 +240,15 @@ def run(chk):
                                  if isinstance(f_, ast.FunctionDef) and f_.name == n.func.id for x in ast.walk(f_))})
     verified = set(WRITE_HELPERS)
     WRITE_HELPERS.update(unverified)
+    # a local name bound once to functools.partial(<helper>, pipe): its calls are calls of the helper on the pipe
+    PARTIALS.clear()
+    for n in walk_no_nested(fn):
+        if isinstance(n, ast.Assign) and len(n.targets) == 1 and isinstance(n.targets[0], ast.Name) and isinstance(n.value, ast.Call) \
+                and dotted(n.value.func) in ('partial', 'functools.partial') and len(n.value.args) == 2 and not n.value.keywords \
+                and isinstance(n.value.args[0], ast.Name) and n.value.args[0].id in WRITE_HELPERS and unparse(n.value.args[1]) == 'pipe':
+            nm = n.targets[0].id
+            if sum(1 for x in walk_no_nested(fn) if isinstance(x, ast.Name) and x.id == nm and isinstance(x.ctx, ast.Store)) == 1:
+                PARTIALS.add(nm)
     # ---- R1
     first_write = next((i for i, s in enumerate(body) if contains(s, is_write)), None)
     if first_write is None:
